@@ -1,3 +1,4 @@
+import Props.C02Keys
 import Model.KeyPolicy
 /-
   C02 — algorithm allow-list, key-family matching, key selection, use / key_ops, crit, and the
